@@ -190,17 +190,26 @@ Section C17.
   Proof. exact (convert_rect_clamped N CMP). Qed.
 
   (* ---- transform(): Bezier/Line segments get their control points mapped ---- *)
-  Theorem C17_transform_bezier : forall M l,
+  Theorem C17_transform_bezier : forall c M l,
       existsb (@is_arc K) l = false ->
-      exists l', apply_tf N M l = Some l' /\
+      exists l', apply_tf N c M l = Some l' /\
                  (M = mI N -> l' = l) /\ (M <> mI N -> l' = map (seg_affine N M) l).
   Proof. exact (apply_tf_bezier N CMP). Qed.
-  Theorem C17_transform_identity : forall l, apply_tf N (mI N) l = Some l.
+  Theorem C17_transform_identity : forall c l, apply_tf N c (mI N) l = Some l.
   Proof. exact (apply_tf_identity N CMP). Qed.
   (* the Arc branch raises under every non-identity matrix *)
-  Theorem C17_transform_arc_raises : forall M l,
-      M <> mI N -> existsb (@is_arc K) l = true -> apply_tf N M l = None.
+  Theorem C17_transform_arc_raises : forall c M l,
+      f_arc_tf c = false ->
+      M <> mI N -> existsb (@is_arc K) l = true -> apply_tf N c M l = None.
   Proof. exact (apply_tf_arc_raises N CMP). Qed.
+  (* repaired Arc branch (f_arc_tf): transform() never raises, the points of every
+     segment (for an arc: its end points) are mapped; the arc's radii / rotation
+     are property C10's *)
+  Theorem C17_transform_total : forall c M l,
+      f_arc_tf c = true ->
+      exists l', apply_tf N c M l = Some l' /\
+                 (M = mI N -> l' = l) /\ (M <> mI N -> l' = map (seg_affine N M) l).
+  Proof. exact (apply_tf_total N CMP). Qed.
 
   (* ---- svg2paths: every element, transforms ignored, per-kind harvest ---- *)
   Theorem C17_svg2paths : forall root : @node K,
@@ -297,7 +306,7 @@ Definition tree_circle : qnode :=
 Example C17_arc_transform_refuted :
   doc_paths N pinned tree_circle = None
   /\ length (ref_paths N tree_circle) = 1%nat
-  /\ check_document pinned (q 0) tree_circle None = 6%nat.   (* tie holds (bit 0 clear); count (2) and element 0 (4) fail *)
+  /\ check_document pinned (q 0) tree_circle tree_circle None = 6%nat.   (* tie holds (bit 0 clear); count (2) and element 0 (4) fail *)
 Proof. vm_compute. repeat split. Qed.
 
 (* SaxDocument multiplies child · parent: <g translate(10,0)><g scale(2)><path/> *)
@@ -348,8 +357,8 @@ Example C17_repaired_witnesses :
   /\ mats_eq (map (fun o : @saxout Qc => odefm N (snd o)) (sax_tree N repaired tree_nested))
              (map (fun o : @out Qc => snd o) (flatten_ref N tree_nested (mI N))) = true
   /\ tie_plain (q 0) (sax_flatten N repaired tree_nested) (Some [(1%nat, [SgLine (q 10, q 0) (q 12, q 2)])]) = true
-  (* not repaired: the Arc branch of transform() *)
-  /\ doc_paths N repaired tree_circle = None.
+  (* repaired Arc branch: the circle under translate(1,1) is returned *)
+  /\ option_map (@length _) (doc_paths N repaired tree_circle) = Some 1%nat.
 Proof. vm_compute. repeat split. Qed.
 
 (* non-vacuity: a mixed tree on which everything agrees *)
@@ -361,7 +370,7 @@ Definition tree_mixed : qnode :=
         [Shape KPolygon poly3 [TTranslate (q 1) None];
          Group [TRotate (q 0) (q 1) (Some (q 1, q 1))] [Shape KPath path1 [TSkewX (q 1)]]].
 Example C17_nonvacuous :
-  check_document pinned (q 0) tree_mixed
+  check_document pinned (q 0) tree_mixed tree_mixed
      (option_map (map (fun r => r)) (doc_paths N pinned tree_mixed)) = 0%nat
   /\ option_map (@length _) (doc_paths N pinned tree_mixed) = Some 2%nat.
 Proof. vm_compute. split; reflexivity. Qed.
@@ -401,6 +410,7 @@ Print Assumptions C17_shapes_rect_plain.
 Print Assumptions C17_shapes_rect_rounded_partial.
 Print Assumptions C17_transform_bezier.
 Print Assumptions C17_transform_arc_raises.
+Print Assumptions C17_transform_total.
 Print Assumptions C17_svg2paths.
 Print Assumptions C17_sax_stack_is_rec.
 Print Assumptions C17_sax_order.
